@@ -72,7 +72,16 @@ class C18Oracle(worldprop.Oracle):
                             r = cc.valid_qualified_name(s)
                         except Exception:
                             r = None
-                        if r is not None and r.uri == u:
+                        # ... judged by the rule itself as well (the prefix is what stands before the first colon; it is
+                        # looked up in the container, then in its document), not only by the library's resolver
+                        pfx = q.namespace.prefix
+                        by_rule = False
+                        if pfx and s == pfx + ":" + q.localpart:
+                            nsx = dict.get(c._namespaces, pfx)
+                            if nsx is None and c is not d:
+                                nsx = dict.get(d._namespaces, pfx)
+                            by_rule = nsx is not None and nsx.uri + q.localpart == u
+                        if (r is not None and r.uri == u) or by_rule:
                             spellings.append((form, s))
                     for form, x in spellings:
                         cc = copy.deepcopy(c)
